@@ -1,0 +1,36 @@
+#pragma once
+
+// Verification hooks for the fault-injection layer.
+// Compiled only with -DYACLIB_VERIF; every hook is a function pointer, null means original behaviour.
+
+#ifdef YACLIB_VERIF
+
+#  include <cstddef>
+#  include <cstdint>
+
+namespace yaclib::verif {
+
+enum Kind : int {
+  kYield = 0,     // Injector::NeedInject: 1 = yield here, 0 = continue
+  kPick = 1,      // PollRandomElementFromList: index of the element to take
+  kWeakFail = 2,  // ShouldFailAtomicWeak: 1 = fail spuriously
+  kRand = 3,      // any other GetRandNumber(max): value in [0, max)
+};
+
+struct Hooks {
+  // returns < 0 to fall through to the original (random) behaviour
+  std::int64_t (*choose)(int kind, std::uint64_t n) = nullptr;
+  // Scheduler::GetNext: ids of runnable fibers in queue order, self = index of the fiber that ran last or -1
+  std::int64_t (*pick_fiber)(const std::uint64_t* ids, std::size_t n, std::int64_t self) = nullptr;
+  // around every statement wrapped in YACLIB_INJECT_FAULT
+  void (*before)(const volatile void* object, const char* op) = nullptr;
+  void (*after)(const volatile void* object, std::size_t size, const char* op) = nullptr;
+  // Scheduler::RunLoop, before a fiber is resumed
+  void (*resume)(std::uint64_t fiber_id) = nullptr;
+};
+
+inline Hooks gHooks;
+
+}  // namespace yaclib::verif
+
+#endif
